@@ -729,6 +729,8 @@ class LogicalLinkController(object):
             raise err.Error(errno.ENOTSOCK)
         if socket.addr is not None:
             raise err.Error(errno.EINVAL)
+        if self.sap[0] is None:
+            raise err.Error(errno.ESHUTDOWN)  # link terminated
         if addr_or_name is None:
             self._bind_by_none(socket)
         elif isinstance(addr_or_name, int):
